@@ -926,6 +926,9 @@ def _make_exprlike_fst(  # TODO: this needs a refactor, cleanup and simplificati
                 if not need_pars(False):
                     put_fst._unparenthesize_grouping(False)
 
+            elif self.a.__class__ in (TypeAlias, NamedExpr) and field in ('name', 'target'):  # these can never be parenthesized, `type (T) = ...` and `((x) := ...)` are syntax errors, so source pars go even if `pars=True`
+                put_fst._unparenthesize_grouping(False)
+
         else:  # src does not have grouping pars
             if ((tgt_has_pars := tgt_is_FST and getattr(target.pars(), 'n', 0))
                 and (put_is_star or put_fst.is_parenthesized_tuple() is False)
